@@ -1,12 +1,20 @@
 from excel2pycl.src.cell import Cell
 from excel2pycl.src.exceptions import E2PyclParserException
 from excel2pycl.src.tokens import EntryPointToken
+from excel2pycl.src.tokens.composite_base_token import CompositeBaseToken
 
 
 class AstBuilder:
     @classmethod
     def parse(cls, expression: list, in_cell: Cell):
-        token, rest = EntryPointToken.get(expression, in_cell)
+        # sub-parses are remembered for the time of this parse only (and per thread)
+        state = CompositeBaseToken._parse_state
+        previous = getattr(state, 'memo', None)
+        state.memo = {}
+        try:
+            token, rest = EntryPointToken.get(expression, in_cell)
+        finally:
+            state.memo = previous
         if token is None or rest:
             raise E2PyclParserException(f'The formula in {in_cell} cannot be parsed completely, unparsed part: {rest}')
 
